@@ -338,6 +338,20 @@ def main(tier):
                 chk.fail("neutral-rewrite-changes-schema/comments-on-nested-nodes", "comments on dimensions / union cases / members of uncommented fields change the %s schema" % src,
                          {"source": src, "before": ra[src].get("ProbeProto"), "after": rb[src].get("ProbeProto"), "model": PROBE})
                 break
+        # a protocol whose schema is longer than any literal-size or buffer limit a backend might have (> 64 KiB), and a package
+        # whose protocols reach asymmetric fixed arrays / fixed vectors only through an imported package (the backends run one
+        # after another over one shared model: none may leave it changed for the next)
+        big = shapes.bigschema_package()
+        lib = Package("Lib", defs=[Record("Rec", [("m", Arr(P("float32"), [3, 4])), ("v", Vec(P("int32"), 5)), ("n", Arr(P("float64"), [("a", 2), ("b", 3), ("c", 4)]))]),
+                                   Alias("Mat", Arr(P("float32"), [2, 5])), Alias("Grid", Arr(TP("T"), [4, 2]), tparams=("T",)),
+                                   Record("Outer", [("r", N("Rec")), ("g", N("Grid", P("int16")))])], dirname="lib")
+        top = Package("Top", defs=[Record("Own", [("o", Arr(P("uint8"), [7, 2])), ("l", N("Lib.Rec"))])],
+                      protocols=[Protocol("Pa", [("rec", N("Lib.Rec")), ("mat", N("Lib.Mat")), ("grid", N("Lib.Grid", P("int32"))), ("recs", Stream(N("Lib.Outer"))),
+                                                 ("own", N("Own")), ("arr", Arr(P("float64"), [5, 1, 3]))]),
+                                 Protocol("Pb", [("mats", Vec(N("Lib.Mat"))), ("o", Opt(N("Lib.Outer")))])], imports=[lib], dirname="top")
+        for label, pkg in (("big-schema", big), ("imported-fixed-arrays", top)):
+            fs = am.package_files(pkg, targets=("cpp", "python", "matlab"))
+            record(label, pkg, generate_and_extract("x_" + label, fs, pkg.dirname, build.HarnessProc("schema")))
         # packed shape packages: backend equality + function property over thousands of protocol steps
         sh = [s for s in shapes.shapes(1, tier) if not shapes.has_vector_of_bool(s)]
         packed = shapes.pack(sh[::(3 if quick else 1)], "Sch", with_records=False)
